@@ -40,7 +40,7 @@ class TxIn:
         return cls(*parse_struct("#LSL", f))
 
     def is_coinbase(self) -> bool:
-        return self.previous_hash == ZERO
+        return self.previous_hash == ZERO and self.previous_index == 0xFFFFFFFF
 
     def public_key_sec(self) -> bytes | None:
         """Return the public key as sec, or None in case of failure."""
